@@ -112,3 +112,265 @@ UNITS.append(
         opts={"ghost_defs": S.GD, "callee": False},
     )
 )
+
+
+# ---- C04: forcing a target bin count (utils.find_Jdes_binary_search, plan(force_target_nf=True)) --------------------
+# A-DET (listed in the trusted base): a scheduler is a deterministic function of its keyword arguments, so the number
+# of bins it returns is a function NFOF(scheduler, N, fs, olap, bmin, Lmin, Jdes, Kdes).  The search is proved for an
+# arbitrary such function (the scheduler parameter is an uninterpreted callable): it terminates and returns None or a
+# Jdes in [MIN_JDES, MAX_JDES] with NFOF(..., Jdes, ...) == target_nf.  plan() with force_target_nf then runs the
+# scheduler at that Jdes: the plan has exactly the target count, or RuntimeError is raised.
+
+SCHED_TAG = {"scheduler": 0, "ltf_plan": 1, "lpsd_plan": 2, "vectorized_ltf_plan": 3, "new_ltf_plan": 4}
+
+
+def _nfof_term(eng, tag, d):
+    import z3
+    from pyvc import values as V
+    from pyvc.values import Sym
+
+    key = ("nfof",)
+    f = eng.__dict__.setdefault("_nfof_fn", None)
+    if f is None:
+        f = z3.Function("NFOF", z3.IntSort(), z3.IntSort(), z3.RealSort(), z3.RealSort(), z3.RealSort(), z3.IntSort(), z3.IntSort(), z3.IntSort(), z3.IntSort())
+        eng._nfof_fn = f
+    g = lambda k, kind: (V.int_term(d[k]) if kind == "int" else V.real_term(d[k])) if k in d else (z3.IntVal(0) if kind == "int" else z3.RealVal(0))
+    return Sym(f(z3.IntVal(tag), g("N", "int"), g("fs", "real"), g("olap", "real"), g("bmin", "real"), g("Lmin", "int"), g("Jdes", "int"), g("Kdes", "int")), "int")
+
+
+def _search_setup(eng, st, fid, genv):
+    from pyvc.heap import DictV
+    from pyvc.values import Opaque
+
+    d = {"N": eng.fresh("arg_N", "int"), "fs": eng.fresh("arg_fs", "real"), "olap": eng.fresh("arg_olap", "real"), "bmin": eng.fresh("arg_bmin", "real"), "Lmin": eng.fresh("arg_Lmin", "int"), "Kdes": eng.fresh("arg_Kdes", "int")}
+    eng.setvar(st, fid, "args", eng.alloc(st, DictV(d)))
+    eng.setvar(st, fid, "scheduler", Opaque("scheduler", {"callable": True, "__name__": "scheduler"}))
+    eng.setvar(st, fid, "target_nf", eng.fresh("target_nf", "int"))
+
+
+UNITS.append(
+    Unit(
+        id="utils.find_Jdes_binary_search",
+        module="speckit/utils.py",
+        func="find_Jdes_binary_search",
+        props=["C04"],
+        setup=_search_setup,
+        returns=lambda eng, st, name, env: _search_result(eng, st),
+        loops={"0": dict(label="search", types={"Jdes": "int", "lower": "int", "upper": "int"}, variant="upper - lower + 1", decrease="1", inv={"range": "100 <= lower and upper <= 1000000 and lower <= upper + 1"})},
+        ensures={"C04.exact_count_or_none": "result is None or (100 <= result and result <= 1000000 and NFOF(scheduler, args, result) == target_nf)"},
+        raises={},
+        opts={"callee": True, "may_return_none": True},
+    )
+)
+
+
+def _search_result(eng, st):
+    # the int outcome of the call (the None outcome is the second normal outcome: opts may_return_none)
+    return eng.fresh("solved_Jdes", "int")
+
+
+def install(eng):
+    from pyvc.heap import Builtin, DictV, Closure
+    from pyvc.values import Opaque
+
+    def sched_call(eng_, st, fn, args, kwargs, line):
+        d = {k: eng_.deref(st, v) for k, v in kwargs.items()}
+        eng_.trusted.add("A-DET: a scheduler's bin count is a function NFOF of (scheduler, N, fs, olap, bmin, Lmin, Jdes, Kdes)")
+        return eng_.alloc(st, DictV({"nf": _nfof_term(eng_, 0, d)}))
+
+    eng.call_hooks["scheduler"] = sched_call
+
+    def nfof(eng_, st, sched, args, jdes):
+        sched = eng_.deref(st, sched)
+        name = sched.name if isinstance(sched, (Opaque, Closure)) else "scheduler"
+        d = dict(eng_.deref(st, args).d)
+        d = {k: eng_.deref(st, v) for k, v in d.items()}
+        d["Jdes"] = eng_.deref(st, jdes)
+        return _nfof_term(eng_, SCHED_TAG.get(name, 0), d)
+
+    eng.builtins["NFOF"] = Builtin("NFOF", nfof, True)
+
+
+def _det_post(name):
+    def call_post(eng, st, fid, res):
+        from pyvc import values as V
+
+        d = {k: eng.deref(st, v) for k, v in eng.deref(st, st.frames[fid]["vars"]["args"]).d.items()}
+        if name == "lpsd_plan":
+            d = dict(d)  # lpsd ignores bmin / Lmin: they are part of the configuration key all the same
+        r = eng.deref(st, res)
+        st.assume(V.cmp("==", r.d["nf"], _nfof_term(eng, SCHED_TAG[name], d)))
+        eng.trusted.add("A-DET: a scheduler's bin count is a function NFOF of (scheduler, N, fs, olap, bmin, Lmin, Jdes, Kdes)")
+
+    return call_post
+
+
+for _u in S.UNITS:
+    if _u.id in ("schedulers.ltf_plan", "schedulers.lpsd_plan", "schedulers.vectorized_ltf_plan", "schedulers.new_ltf_plan"):
+        _u.call_post = _det_post(_u.func)
+
+
+def _force_setup(sched):
+    base = _plan_setup(sched)
+
+    def setup(eng, st, fid, genv):
+        from pyvc.heap import DictV
+
+        base(eng, st, fid, genv)
+        o = st.heap[st.tags["analyzer"]]
+        cfg = dict(st.heap[o.fields["config"].loc].d)
+        cfg["force_target_nf"] = True
+        st.heap[o.fields["config"].loc] = DictV(cfg)
+        genv["TARGET"] = cfg["Jdes"]  # with force_target_nf the configured Jdes is the target count
+
+    return setup
+
+
+for _s in ("ltf_plan", "lpsd_plan", "vectorized_ltf_plan", "new_ltf_plan"):
+    UNITS.append(
+        Unit(
+            id=f"analysis.SpectrumAnalyzer.plan[{_s},force_target_nf]",
+            module=M,
+            func="SpectrumAnalyzer.plan",
+            props=["C04"],
+            setup=_force_setup(_s),
+            requires=[c for c in S.ADMISSIBLE if "Jdes" not in c] + ["Jdes >= 1"],
+            loops=PLAN_LOOPS,
+            ensures={"C04.forced_count_is_exact": "result['nf'] == TARGET and len(result['f']) == TARGET"},
+            raises={"RuntimeError": True},  # "... or an error"
+            post_hook=_cached_hook,
+            opts={"ghost_defs": S.GD, "callee": False},
+        )
+    )
+
+
+# ---- bounded stand-ins (C02 end-to-end, C03 vectorised lookup slack, C04 clauses no contract within reach decides) ----
+
+
+def _configs(rng, n, big=False):
+    import numpy as np
+
+    out = []
+    for t in range(n):
+        N = int(rng.integers(8, 200000 if (big and t % 5 == 0) else 5000))
+        olap = float(rng.choice([0.0, 0.3, 0.5, 0.75, 0.9, 0.97, rng.uniform(0, 0.999)]))
+        bmin = float(rng.uniform(1.0, min(N / 2 - 0.01, 12.0))) if t % 3 else 1.0
+        Lmin = int(rng.integers(1, N + 1)) if t % 4 == 0 else int(rng.integers(1, max(2, N // 8)))
+        out.append(dict(N=N, fs=float(rng.uniform(0.1, 100.0)), olap=olap, bmin=bmin, Lmin=Lmin, Jdes=int(rng.integers(1, 200)), Kdes=int(rng.integers(1, 120))))
+    return out
+
+
+def bounded_c04(tier, seed):
+    """C04 (bounded): monotone L / K and realised overlap for the vectorised and new_ltf planners, log spacing of the
+    vectorised planner, 'vectorised nf within 10 % of the iterative one' on the design grid, forced bin count through
+    the analyzer"""
+    import warnings
+    import numpy as np
+    from speckit.schedulers import ltf_plan, vectorized_ltf_plan, new_ltf_plan
+    from speckit import SpectrumAnalyzer
+
+    warnings.filterwarnings("ignore")
+    rng = np.random.default_rng(seed)
+    fails, n = [], 0
+    for a in _configs(rng, 150 if tier == "quick" else 1500):
+        for nm, f in (("vectorized_ltf_plan", vectorized_ltf_plan), ("new_ltf_plan", new_ltf_plan)):
+            n += 1
+            p = f(**a)
+            L, K, O = np.asarray(p["L"]), np.asarray(p["K"]), np.asarray(p["O"])
+            if np.any(np.diff(L) > 0) or np.any(np.diff(K) < 0):
+                fails.append({"label": "C04.monotone", "input": {"scheduler": nm, "args": a}, "detail": "L increases or K decreases along the plan"})
+            for j in range(len(L)):
+                d = np.asarray(p["D"][j])
+                want = float(np.mean((L[j] - np.diff(d)) / L[j])) if len(d) > 1 else 0.0
+                if abs(O[j] - want) > 1e-9 + 1.0 / max(1, L[j]):
+                    # the vectorised closed form (L-shift)/L differs from the realised mean by at most the rounding of the starts
+                    fails.append({"label": "C04.reported_overlap", "input": {"scheduler": nm, "args": a, "bin": j}, "detail": f"O={O[j]!r}, realised mean overlap {want!r}"})
+                    break
+    # vectorised vs iterative number of bins (design grid: the statement is about realistic analysis sizes)
+    worst = 0.0
+    grid = [(N, J, Kd, ol) for N in ((10000, 100000) if tier == "quick" else (10000, 100000, 1000000)) for J in (100, 300, 1000, 3000) for Kd in (10, 50, 100, 500) for ol in (0.5, 0.75, 0.9)]
+    for N, J, Kd, ol in grid[:: (4 if tier == "quick" else 1)]:
+        n += 1
+        a = dict(N=N, fs=2.0, olap=ol, bmin=1.0, Lmin=1, Jdes=J, Kdes=Kd)
+        n1, n2 = ltf_plan(**a)["nf"], vectorized_ltf_plan(**a)["nf"]
+        rel = abs(n2 - n1) / n1
+        worst = max(worst, rel)
+        if rel > 0.10:
+            fails.append({"label": "C04.vectorised_nf_within_10pct", "input": {"args": a}, "detail": f"iterative nf={n1}, vectorised nf={n2} ({100*rel:.1f} %)"})
+    # forced bin count through the analyzer: exactly the count, or an error
+    x = rng.normal(size=4000)
+    for sched in ("ltf", "lpsd", "vectorized_ltf", "new_ltf"):
+        for target in (150, 300) if tier == "quick" else (120, 150, 300, 500, 800):
+            n += 1
+            try:
+                p = SpectrumAnalyzer(x, 10.0, olap=0.5, Jdes=target, Kdes=10, scheduler=sched, win="hann", force_target_nf=True).plan()
+                if int(p["nf"]) != target or len(p["f"]) != target:
+                    fails.append({"label": "C04.forced_count", "input": {"scheduler": sched, "target": target}, "detail": f"plan has nf={p['nf']}"})
+            except RuntimeError:
+                pass
+    return {"evaluations": n, "bound": f"random admissible configurations N<=5000 (seeded), design grid N<=1e{5 if tier == 'quick' else 6}; worst vectorised/iterative nf deviation {100*worst:.1f} %", "failures": fails[:6], "n_failures": len(fails)}
+
+
+def bounded_c03_vectorised(tier, seed):
+    """C03 (bounded): the vectorised planner's bins do not fall below bmin by more than the rounding of L and the
+    spacing of its lookup grid allow: b >= bmin * f_grid[idx-1]/f_grid[idx] - rounding"""
+    import warnings
+    import numpy as np
+    from speckit.schedulers import vectorized_ltf_plan
+
+    warnings.filterwarnings("ignore")
+    rng = np.random.default_rng(seed)
+    fails, n = [], 0
+    for a in _configs(rng, 150 if tier == "quick" else 1500):
+        n += 1
+        p = vectorized_ltf_plan(**a)
+        fmin, fmax = a["bmin"] * a["fs"] / a["N"], a["fs"] / 2
+        ratio = (fmax / fmin) ** (1.0 / max(1, 10 * a["Jdes"] - 1))  # spacing of the logarithmic lookup grid
+        b, L = np.asarray(p["b"]), np.asarray(p["L"])
+        low = a["bmin"] / ratio * (1 - 0.5 / L) - 1e-9
+        bad = np.nonzero((b < low) & (L < a["N"]))[0]
+        if len(bad):
+            j = int(bad[0])
+            fails.append({"label": "C03.bmin_up_to_lookup_grid", "input": {"args": a, "bin": j}, "detail": f"b={b[j]!r} < bmin/ratio*(1-1/(2L))={low[j]!r}"})
+    return {"evaluations": n, "bound": "random admissible configurations N<=5000 (seeded)", "failures": fails[:5], "n_failures": len(fails)}
+
+
+def bounded_plan_end_to_end(tier, seed):
+    """C02 (bounded): SpectrumAnalyzer(...).plan() through the public constructor never raises for admissible
+    configurations (the constructor's own parameter handling is outside the plan() unit)"""
+    import warnings
+    import numpy as np
+    from speckit import SpectrumAnalyzer
+
+    warnings.filterwarnings("ignore")
+    rng = np.random.default_rng(seed)
+    fails, n = [], 0
+    for a in _configs(rng, 60 if tier == "quick" else 600):
+        x = rng.normal(size=a["N"])
+        for sched in ("ltf", "lpsd", "vectorized_ltf", "new_ltf"):
+            n += 1
+            kw = dict(olap=a["olap"], Jdes=a["Jdes"], Kdes=a["Kdes"], scheduler=sched, win="hann")
+            if sched != "lpsd":
+                kw.update(bmin=a["bmin"], Lmin=a["Lmin"])
+            try:
+                p = SpectrumAnalyzer(x, a["fs"], **kw).plan()
+                ok = all(len(d) >= 1 and d[0] == 0 and d[-1] + l == a["N"] and np.all(np.diff(d) > 0) for d, l in zip(p["D"], p["L"]))
+                if not ok:
+                    fails.append({"label": "C02.plan_through_analyzer", "input": {"scheduler": sched, "args": a}, "detail": "a bin's starts do not run from 0 to N-L strictly increasing"})
+            except Exception as e:
+                fails.append({"label": "C02.plan_through_analyzer", "input": {"scheduler": sched, "args": a}, "detail": "plan() raised " + repr(e)[:120]})
+    return {"evaluations": n, "bound": "random admissible configurations N<=5000 x 4 schedulers (seeded)", "failures": fails[:5], "n_failures": len(fails)}
+
+
+BOUNDED = {"C04.schedulers": bounded_c04, "C03.vectorised_lookup": bounded_c03_vectorised, "C02.plan_end_to_end": bounded_plan_end_to_end}
+PROPERTY_INFO = {
+    "C02": {"bounded": ["C02.plan_end_to_end"], "trusted": ["A-DET (forced count only)"]},
+    "C03": {"bounded": ["C03.vectorised_lookup"], "not_decided": ["vectorised scheduler: 'no bin below bmin by more than ... the spacing of its lookup grid allows' - the grid is np.logspace; bounded run-time clause only"]},
+    "C04": {
+        "bounded": ["C04.schedulers"],
+        "not_decided": [
+            "'the vectorised scheduler produces the same number of bins as the iterative one to within 10 %' relates the trip counts of two loops driven by a transcendental recurrence: bounded grid only",
+            "monotone L / K, log spacing and realised overlap for vectorized_ltf_plan and new_ltf_plan: bounded (proved for ltf_plan and lpsd_plan)",
+        ],
+    },
+}
